@@ -24,7 +24,8 @@ out = ["# Sensitivity self-test results", "",
 for (name, prop), (verdict, rest) in sorted(res.items()):
     t = re.search(r"in (\d+)s", rest)
     out.append("| %s | %s | %s%s | %s |" % (name[:-5], prop, verdict, (" (%ss)" % t.group(1)) if t else "", desc(name)))
-open(os.path.join(ROOT, "mutants", "RESULTS.md"), "w").write("\n".join(out) + "\n")
+if len(sys.argv) > 1:  # without logs the mutant table is left as it is
+    open(os.path.join(ROOT, "mutants", "RESULTS.md"), "w").write("\n".join(out) + "\n")
 print("mutants:", len(res), "rows;", sum(1 for v in res.values() if v[0] == "CAUGHT"), "caught")
 rows = ["# Seeded changes written by independent sub-agents", "",
         "Each directory holds the agent's patch, its demonstration and meta.json (what was run to confirm it and the verdict of the check).", "",
